@@ -184,6 +184,58 @@ class FnResult:
 MUTATORS = {"update", "append", "extend", "insert", "setdefault", "pop", "popitem", "clear", "add", "remove", "discard", "sort", "reverse", "__setitem__", "__delitem__"}
 
 
+def shared_class_state(repo, relpath, qual):
+    """class-level attributes of the class that owns `qual` which hold a mutable container (display, dict()/list()/set()/bytearray()/
+    defaultdict()/...) and are mutated through an instance (self.<name>[..] = / del / augmented store / mutating method) in some method
+    of the class although no method rebinds self.<name>: one object shared by every instance, so what one parser object returns depends
+    on which other objects were used before (C08), and metadata of one image leaks into another (C14, C17)"""
+    import os
+
+    parts = qual.split(".")
+    if len(parts) < 2:
+        return []
+    tree = ast.parse(open(os.path.join(repo, relpath)).read())
+    body, cls = tree.body, None
+    for p_ in parts[:-1]:
+        cls = next((n for n in body if isinstance(n, ast.ClassDef) and n.name == p_), None)
+        if cls is None:
+            return []
+        body = cls.body
+    mutable = {}
+    for n in cls.body:
+        tg = n.targets if isinstance(n, ast.Assign) else ([n.target] if isinstance(n, ast.AnnAssign) and n.value is not None else [])
+        v = getattr(n, "value", None)
+        fresh = isinstance(v, (ast.Dict, ast.List, ast.Set, ast.ListComp, ast.DictComp, ast.SetComp)) or (
+            isinstance(v, ast.Call) and ast.unparse(v.func).split(".")[-1] in ("dict", "list", "set", "bytearray", "defaultdict", "OrderedDict", "deque", "Counter"))
+        for t in tg:
+            if isinstance(t, ast.Name) and fresh:
+                mutable[t.id] = n.lineno
+    if not mutable:
+        return []
+    rebound, mutated = set(), {}
+    for n in ast.walk(cls):
+        tg = n.targets if isinstance(n, (ast.Assign, ast.Delete)) else ([n.target] if isinstance(n, (ast.AugAssign, ast.AnnAssign)) else [])
+        for t in tg:
+            if isinstance(t, ast.Attribute) and isinstance(t.value, ast.Name) and t.value.id == "self" and isinstance(n, (ast.Assign, ast.AnnAssign)):
+                rebound.add(t.attr)
+            for y in ast.walk(t):
+                if isinstance(y, ast.Subscript) and isinstance(y.ctx, (ast.Store, ast.Del)):
+                    b_ = y.value
+                    while isinstance(b_, ast.Subscript):
+                        b_ = b_.value
+                    if isinstance(b_, ast.Attribute) and isinstance(b_.value, ast.Name) and b_.value.id in ("self", "cls", cls.name) and b_.attr in mutable:
+                        mutated.setdefault(b_.attr, n.lineno)
+            if isinstance(n, ast.AugAssign) and isinstance(t, ast.Attribute) and isinstance(t.value, ast.Name) and t.value.id in ("self", "cls") and t.attr in mutable:
+                mutated.setdefault(t.attr, n.lineno)
+        if isinstance(n, ast.Call) and isinstance(n.func, ast.Attribute) and n.func.attr in MUTATORS:
+            b_ = n.func.value
+            while isinstance(b_, ast.Subscript):
+                b_ = b_.value
+            if isinstance(b_, ast.Attribute) and isinstance(b_.value, ast.Name) and b_.value.id in ("self", "cls", cls.name) and b_.attr in mutable:
+                mutated.setdefault(b_.attr, n.lineno)
+    return [f"{cls.name}.{a}@{ln}" for a, ln in sorted(mutated.items()) if a not in rebound]
+
+
 def module_state_mutations(repo, relpath, fn_node):
     """names bound at module level that the function mutates (subscript store/delete, mutating method call, `global` rebinding):
     such a function keeps state between calls, so its result may depend on the call history"""
